@@ -97,6 +97,15 @@ impl Property for C02 {
             _ => return Err("C02: wrong case type".into()),
         };
         let bl = base_label(&w.label).to_string();
+        // C02 quantifies over inputs that consist of exactly one RLP item (or a strict prefix of one);
+        // a complete item followed by further bytes is C13's / C12's domain, not judged here
+        if let Ok((_, h, p)) = crate::refmodel::rlp::header_at(&w.bytes) {
+            if h + p < w.bytes.len() {
+                st.unspecified();
+                st.label("out-of-domain:item-with-trailing-bytes");
+                return Ok(());
+            }
+        }
         let text = format!("enr:{}", b64::encode(&w.bytes));
         let mut any_struct_reject = false;
         let mut any_accept = false;
